@@ -103,6 +103,12 @@ def _seq(case, m, res):
     V = res["violations"]
     data = build.data_alphabet(m.n_face, ("generic",))[0][1]
     ref = {}
+    for ri, (rule, order) in enumerate(RULES):
+        pool.fresh()
+        try:
+            ref[ri] = float(np.dot(data, _areas(m, rule, order)))
+        except Exception:
+            pass  # reported when the sequence reaches it
     for rest in itertools.product(range(len(RULES)), repeat=case["depth"] - 1):
         seq = (case["first"],) + rest
         if "only" in case and list(seq) != case["only"]["seq"]:
@@ -159,16 +165,27 @@ def run_case(case):
     V = res["violations"]
     tier = case["tier"]
     rules = list(reversed(RULES)) if case["rev"] else RULES
+    # reference weights first, in their own executions (a reference computed between the calls under test could mask or trigger
+    # state shared through the module)
+    ref_area, ref_err = {}, {}
+    for rule, order in RULES:
+        pool.fresh()
+        try:
+            ref_area[(rule, order)] = _areas(m, rule, order)
+        except Exception as e:
+            ref_err[(rule, order)] = e
+    pool.fresh()
     g = build.grid(m)  # one grid object for the whole (rule, order) sequence
     pre = case.get("pre")
     if pre:
         for p1 in pre.split(" ; "):
             PRE[p1](g)
-    ref_area = {}
     datas = build.data_alphabet(m.n_face, ("identity", "generic", "ones", "int", "bool", "f32", "impulses"))
     for rule, order in rules:
         try:
-            A = ref_area.setdefault((rule, order), _areas(m, rule, order))
+            if (rule, order) in ref_err:
+                raise ref_err[(rule, order)]
+            A = ref_area[(rule, order)]
         except Exception as e:
             # the weights themselves cannot be computed for a rule/order the statement quantifies over: integrate() cannot be right either
             V.append({"oracle": "integrate", "sig": "c06:areas-raise:%s" % type(e).__name__, "msg": "compute_face_areas(%s,%s) on a fresh %s grid raised %r" % (rule, order, case["mesh"], e), "focus": dict(case, only={"rule": rule, "order": order, "data": "identity", "lead": []})})
